@@ -273,14 +273,42 @@ class C04:
                             f"over every clip annotation (found: {show(g)[:100]}; loop over {show(loops[0].iter) if loops else '-'})",
                             r.lineno)
         # (e) Clip._validate_times
-        got = self.validator(f"{DATA}.clips", "Clip", "_validate_times", "before")
+        cci = ctx.index.need_class(f"{DATA}.clips", "Clip")
+        cmode = next((v.mode for v in ctx.models.validators(cci, inherited=False) if v.name == "_validate_times" and v.kind == "model"), "before")
+        got = self.validator(f"{DATA}.clips", "Clip", "_validate_times", cmode if cmode in ("before", "after") else "after")
         if got:
             ci, s, p = got
             file = ci.module.relpath
-            st, en = ("sub", p, ("const", "start_time")), ("sub", p, ("const", "end_time"))
-            alt = {("call", ("attr", p, "get"), (("const", "start_time"),), ()): st, ("call", ("attr", p, "get"), (("const", "end_time"),), ()): en}
+            if cmode == "after":
+                st, en = ("attr", p, "start_time"), ("attr", p, "end_time")
+                alt = {}
+            else:
+                st, en = ("sub", p, ("const", "start_time")), ("sub", p, ("const", "end_time"))
+                alt = {("call", ("attr", p, "get"), (("const", "start_time"),), ()): st, ("call", ("attr", p, "get"), (("const", "end_time"),), ()): en}
             trig = [g for g, _ in triggers(s)]
             site = f"{file}:{s.node.lineno} Clip._validate_times"
+            # R04.6: the ordering is decided on the values the clip will HOLD.  In before mode the validator sees the raw input:
+            # pydantic (lax mode) afterwards turns numeric strings into floats, so comparing the raw items compares strings
+            # ("10" > "2" is False) -- the comparison must be made on validated attributes (after mode) or on explicit float(...)
+            raw_cmp = None
+            if cmode != "after":
+                for g in trig:
+                    for x in walk(g):
+                        if x[0] == "cmp" and x[1] in ("lt", "le", "gt", "ge") and any(y in (st, en) or y in alt for y in (x[2], x[3])):
+                            raw_cmp = x
+            if raw_cmp is not None:
+                ctx.bad("R04.6", file, "Clip._validate_times", f"@model_validator(mode='before'): {show(raw_cmp)[:60]}",
+                        f"the ordering test `{show(raw_cmp)[:80]}` runs in before mode on the RAW input; pydantic coerces numeric strings to floats "
+                        f"only afterwards, so Clip(start_time='10', end_time='2') passes the test as a string comparison and is constructed "
+                        f"with start_time 10.0 > end_time 2.0 (and '2', '10' is rejected); a missing key leaves as KeyError, mixed str / number "
+                        f"as TypeError instead of a validation error -- through the constructor, dict and JSON validation alike", s.node.lineno,
+                        witness={"input": {"start_time": "10", "end_time": "2"}, "constructed": {"start_time": 10.0, "end_time": 2.0}})
+            else:
+                ctx.ok("R04.6", site, "the ordering is tested on validated (coerced) values")
+            for k_ in list(alt):
+                pass
+            # float(values[...]) is the value itself for the numeric placements below
+            fl_ = {("call", ("builtin", "float"), (x_,), ()): x_ for x_ in (st, en)}
             bad = None
             # the three orderings, then pairs one rounding step to a few 1e-10 apart at several magnitudes: a tolerance in
             # the comparison (isclose, round, an epsilon) accepts a clip that starts after it ends
@@ -290,8 +318,21 @@ class C04:
                     placements += [{"start": base + d, "end": base}, {"start": base, "end": base + d}]
             for o in placements:
                 env = {st: float(o["start"]), en: float(o["end"])}
-                for k, v in alt.items():
+                for k, v in list(alt.items()) + list(fl_.items()):
                     env[k] = env[v]
+                if cmode == "after":
+                    # derived attributes (properties such as `duration`) have the value their definition gives for these times
+                    for mn, fns in ci.methods.items():
+                        if any(ast.unparse(d_) == "property" for d_ in fns[-1].decorator_list):
+                            try:
+                                ps = ctx.summ.of_node(ci.module, fns[-1], f"{ci.qual}.{mn}", ci)
+                            except Exception:  # noqa: BLE001
+                                continue
+                            if len(ps.returns) == 1:
+                                sp_ = ("param", ps.params[0])
+                                v_ = peval(ps.returns[0].term, {("attr", sp_, "start_time"): env[st], ("attr", sp_, "end_time"): env[en]})
+                                if v_[0] == "const":
+                                    env[("attr", p, mn)] = v_[1]
                 rej = False
                 for t in trig:
                     r = peval(t, env)
@@ -449,6 +490,7 @@ class C04:
 def run(ctx: Ctx):
     ctx.rule("R04.1", "every score/affinity field is declared with ge=0, le=1", 7)
     ctx.rule("R04.2", "relational validators: registered, reject exactly the specified condition, otherwise return input", 13)
+    ctx.rule("R04.6", "ordering invariants are tested on validated (coerced) values, not on the raw input", 1)
     ctx.rule("R04.3", "no construction/mutation path bypasses validation (package sweep + positive fixture)", 100)
     c = C04(ctx)
     c.check_bounds()
